@@ -151,6 +151,76 @@ static void api_check(uint64_t idx, vp::Local& L) {
     ++L.nontrivial;
 }
 
+// Tile as a value: valid(), ==, !=, < on explicitly constructed tiles (also invalid ones); helper functions per zoom level
+struct TileSpec {
+    uint32_t z, x, y;
+};
+static const std::vector<TileSpec>& tile_grid() {
+    static const std::vector<TileSpec> g = [] {
+        std::vector<TileSpec> v;
+        for (uint32_t z : {0U, 1U, 2U, 15U, 29U, 30U, 31U, 32U, 4294967295U}) {
+            const uint64_t n = z <= 31 ? (1ULL << z) : 0;
+            std::set<uint32_t> cs{0U, 1U, 2U, 4294967295U, 2147483648U, 2147483647U};
+            if (z <= 31) {
+                for (int64_t d = -1; d <= 1; ++d) {
+                    const int64_t c = static_cast<int64_t>(n) + d;
+                    if (c >= 0 && c <= 4294967295LL) cs.insert(static_cast<uint32_t>(c));
+                }
+            }
+            for (uint32_t x : cs)
+                for (uint32_t y : cs) v.push_back(TileSpec{z, x, y});
+        }
+        return v;
+    }();
+    return g;
+}
+// (the three-argument constructor has the precondition "valid"; the members are public, so any tile can be made by assignment)
+static Tile make_tile(const TileSpec& t) {
+    Tile r{0, 0, 0};
+    r.z = t.z;
+    r.x = t.x;
+    r.y = t.y;
+    return r;
+}
+static void tile_ops(uint64_t idx, vp::Local& L) {
+    const auto& g = tile_grid();
+    const TileSpec& A = g[idx / g.size()];
+    const TileSpec& B = g[idx % g.size()];
+    const Tile a = make_tile(A), b = make_tile(B);
+    const bool want_valid = A.z <= 30 && static_cast<uint64_t>(A.x) < (1ULL << A.z) && static_cast<uint64_t>(A.y) < (1ULL << A.z);
+    if (want_valid) {
+        const Tile made{A.z, A.x, A.y};
+        VP_CHECK(made.z == A.z && made.x == A.x && made.y == A.y && made == a, "tile-value", "Tile(z,x,y) does not store what it was given");
+    }
+    VP_CHECK(a.valid() == want_valid, "tile-valid", "Tile(" << A.z << "," << A.x << "," << A.y << ").valid() = " << a.valid());
+    const bool same = A.z == B.z && A.x == B.x && A.y == B.y;
+    VP_CHECK((a == b) == same && (a != b) == !same, "tile-equality", "Tile(" << A.z << "," << A.x << "," << A.y << ") ==/!= Tile(" << B.z << "," << B.x << "," << B.y << ") gives " << (a == b) << "/" << (a != b));
+    // "an arbitrary order for use in std::map": a strict total order that agrees with ==
+    VP_CHECK(!(a < a), "tile-order", "Tile < is not irreflexive");
+    VP_CHECK(same ? (!(a < b) && !(b < a)) : ((a < b) != (b < a)), "tile-order", "Tile(" << A.z << "," << A.x << "," << A.y << ") < Tile(" << B.z << "," << B.x << "," << B.y << "): " << (a < b) << ", reverse: " << (b < a));
+    if (a < b) {
+        for (const TileSpec& C : g) {
+            const Tile c = make_tile(C);
+            if (b < c) VP_CHECK(a < c, "tile-order", "Tile < is not transitive: (" << A.z << "," << A.x << "," << A.y << ") < (" << B.z << "," << B.x << "," << B.y << ") < (" << C.z << "," << C.x << "," << C.y << ")");
+        }
+    }
+    if (idx < 31) {
+        const uint32_t z = static_cast<uint32_t>(idx);
+        VP_CHECK(num_tiles_in_zoom(z) == (1ULL << z), "tile-count", "num_tiles_in_zoom(" << z << ") = " << num_tiles_in_zoom(z));
+        const long double extent = 2.0L * 20037508.34L / static_cast<long double>(1ULL << z);
+        VP_CHECK(std::fabs(static_cast<long double>(tile_extent_in_zoom(z)) - extent) <= extent * 1e-12L, "tile-extent", "tile_extent_in_zoom(" << z << ") = " << tile_extent_in_zoom(z));
+        // the middle of the k-th tile lies in the k-th tile, in x and (counted from the top) in y
+        for (uint64_t k : {0ULL, 1ULL, (1ULL << z) / 2, (1ULL << z) - 2, (1ULL << z) - 1}) {
+            if (k >= (1ULL << z)) continue;
+            const long double mid = -20037508.34L + (static_cast<long double>(k) + 0.5L) * extent;
+            VP_CHECK(mercx_to_tilex(z, static_cast<double>(mid)) == k, "tile-index", "mercx_to_tilex(" << z << ", middle of tile " << k << ") = " << mercx_to_tilex(z, static_cast<double>(mid)));
+            VP_CHECK(mercy_to_tiley(z, static_cast<double>(-mid)) == k, "tile-index", "mercy_to_tiley(" << z << ", middle of tile " << k << " from the top) = " << mercy_to_tiley(z, static_cast<double>(-mid)));
+        }
+    }
+    L.count(want_valid ? "valid_tile" : "invalid_tile");
+    ++L.nontrivial;
+}
+
 static void add_window(std::vector<uint64_t>& v, int64_t centre, int64_t offset, int64_t max, int64_t w) {
     for (int64_t d = -w; d <= w; ++d) {
         int64_t p = centre + d;
@@ -200,9 +270,23 @@ int main(int argc, char** argv) {
         s.block = 64;
         subs.push_back(s);
     }
+    {
+        vp::Sub s;
+        s.name = "tile_ops";
+        s.domain = tile_grid().size() * tile_grid().size();
+        s.fn = tile_ops;
+        s.show = [](uint64_t i) {
+            const auto& g = tile_grid();
+            const TileSpec& A = g[i / g.size()];
+            const TileSpec& B = g[i % g.size()];
+            return "Tile(" + std::to_string(A.z) + "," + std::to_string(A.x) + "," + std::to_string(A.y) + ") and Tile(" + std::to_string(B.z) + "," + std::to_string(B.x) + "," + std::to_string(B.y) + ")";
+        };
+        s.block = 256;
+        subs.push_back(s);
+    }
     return vp::run_enum(subs,
                         "enumeration: every fixed-point latitude in [-90,90] (1.8e9+1 values; quick: stride 997 + windows of +-2000 steps around 0, +-45, +-78, "
                         "+-85.0511288, +-89.99, +-90) and every fixed-point longitude in [-180,180] (quick: stride 4999 + windows), each at zoom 0..30; "
-                        "public Tile/MercatorProjection API on a boundary grid. Oracle: long double tangent formula, exact neighbour comparison. "
+                        "public Tile/MercatorProjection API on a boundary grid; Tile as a value (valid(), ==, !=, < as a strict total order) on all pairs and triples of a grid of valid and invalid tiles, num_tiles_in_zoom/tile_extent_in_zoom/tile index of tile centres per zoom. Oracle: long double tangent formula, exact neighbour comparison. "
                         "non-trivial = every enumerated coordinate (distinct by construction)");
 }
